@@ -103,7 +103,7 @@ theorem solve_p2wsh (a : SolveArgs) (ctx : TxCtx) (prog ws : Bytes) (base : Base
       | .ok existing =>
         match solveBase a.C a.lookup (a.sighash true ws) existing a.ht a.placeholder base with
         | .error e => .error e
-        | .ok items => .ok ([], some (items.filterMap id ++ [ws])) := by
+        | .ok items => .ok ([], some (items ++ [some ws])) := by
   obtain ⟨cs, hrun, hsolve⟩ := hb.ok
   unfold Solve.solve
   cases existingScript script witness with
@@ -128,7 +128,7 @@ theorem solve_p2sh_p2wsh (a : SolveArgs) (ctx : TxCtx) (h prog ws : Bytes) (base
         | .ok items =>
           match pushAll [some (witnessV0Script prog)] with
           | .error e => .error e
-          | .ok sc => .ok (sc, some (items.filterMap id ++ [ws])) := by
+          | .ok sc => .ok (sc, some (items ++ [some ws])) := by
   obtain ⟨cs, hrun, hsolve⟩ := hb.ok
   unfold Solve.solve
   cases existingScript script witness with
@@ -169,7 +169,7 @@ theorem solve_p2wpkh (a : SolveArgs) (ctx : TxCtx) (prog : Bytes) (ph : Bytes) (
       | .ok existing =>
         match solveBase a.C a.lookup (a.sighash true (p2pkhScript prog)) existing a.ht a.placeholder (.p2pkh prog) with
         | .error e => .error e
-        | .ok items => .ok ([], some (items.filterMap id)) := by
+        | .ok items => .ok ([], some items) := by
   unfold Solve.solve
   cases existingScript script witness with
   | error e => rfl
@@ -198,7 +198,7 @@ theorem solve_p2sh_p2wpkh (a : SolveArgs) (ctx : TxCtx) (h prog : Bytes) (ph : B
         | .ok items =>
           match pushAll [some (witnessV0Script prog)] with
           | .error e => .error e
-          | .ok sc => .ok (sc, some (items.filterMap id)) := by
+          | .ok sc => .ok (sc, some items) := by
   unfold Solve.solve
   cases existingScript script witness with
   | error e => rfl
